@@ -269,13 +269,23 @@ func (e *vpC36Env) handler(side int) http.Handler {
 			case vpC36OpDel:
 				w.Header().Del(op.Name)
 			case vpC36OpWrite:
-				_, _ = w.Write(op.Data)
+				// the handler writes from a buffer of its own and reuses it afterwards, as io.Writer allows
+				// ("Write must not retain p")
+				scratch := append([]byte(nil), op.Data...)
+				_, _ = w.Write(scratch)
+				for i := range scratch {
+					scratch[i] = '#'
+				}
 			case vpC36OpFlush:
 				if f, ok := w.(http.Flusher); ok {
 					f.Flush()
 				}
 			case vpC36OpEchoBody:
-				_, _ = w.Write(snap.Body)
+				scratch := append([]byte(nil), snap.Body...)
+				_, _ = w.Write(scratch)
+				for i := range scratch {
+					scratch[i] = '#'
+				}
 			}
 		}
 	})
@@ -464,7 +474,7 @@ func vpC36GenData(t *rapid.T) []byte {
 	case 4:
 		return []byte("%PDF-1.4 x")
 	case 5:
-		n := rapid.SampledFrom([]int{500, 511, 512, 513, 2040, 2048, 2049, 4095, 4097, 9000}).Draw(t, "biglen")
+		n := rapid.SampledFrom([]int{500, 511, 512, 513, 2040, 2048, 2049, 4095, 4097, 9000, 32767, 32768, 32769, 70000}).Draw(t, "biglen")
 		c := rapid.SampledFrom([]byte{'a', ' ', '<', 0x00, 0xff}).Draw(t, "bigc")
 		return bytes.Repeat([]byte{c}, n)
 	case 6:
